@@ -12,7 +12,7 @@ VARIABLE l
 
 ToSet(s) == {s[i] : i \in DOMAIN s}
 AllowIds == IF "ALLOW" \in DOMAIN IOEnv THEN IOEnv.ALLOW ELSE ""
-KnownIds == {"KF-C05-notlonger", "KF-C09-rollback-number", "KF-C16-txheight"}
+KnownIds == {"KF-C05-notlonger", "KF-C09-rollback-number", "KF-C16-txheight", "KF-C06-blockhash"}
 Allow == {id \in KnownIds : \E i \in 1..(Len(AllowIds) - Len(id) + 1) : SubSeq(AllowIds, i, i + Len(id) - 1) = id}
 Prop == IF "PROP" \in DOMAIN IOEnv THEN IOEnv.PROP ELSE "C03"
 
@@ -55,19 +55,25 @@ MsgOf(a) ==
      cont |-> a.attrs.cont, mmem |-> 0, mmr |-> a.attrs.mmr, tau |-> a.attrs.tau, td |-> a.attrs.td]
 
 \* persistent pipeline state and the lock-protected map stay as they are
-PipeUnchanged == UNCHANGED <<scripts, startOf, minF, mdb, mmem, cpFinal, fetchH, fetchT>> /\ IxUnchanged
-PipeUnchangedNoFetch == UNCHANGED <<scripts, startOf, minF, mdb, mmem, cpFinal>> /\ IxUnchanged
-PersistentUnchanged == UNCHANGED <<scripts, startOf, minF, mdb, cpFinal>> /\ IxUnchanged
+PipeUnchanged == UNCHANGED <<scripts, startOf, minF, mdb, mmem, cpFinal, fetchH, fetchT, over, subst>> /\ IxUnchanged
+PipeUnchangedNoFetch == UNCHANGED <<scripts, startOf, minF, mdb, mmem, cpFinal, over, subst>> /\ IxUnchanged
+PersistentUnchanged == UNCHANGED <<scripts, startOf, minF, mdb, cpFinal, over, subst>> /\ IxUnchanged
 
 IsPrefixSeq(a, b) == Len(a) <= Len(b) /\ SubSeq(b, 1, Len(a)) = a
 
 \* honest SendBlocksProof for the request the peer holds
 BlocksProofEv(a) ==
     LET bpr == pf[a.p].bpr IN
+    /\ UNCHANGED <<over, subst>>
     /\ UNCHANGED <<world, cfg, now, tip, tipTD, lastN>>
     /\ UNCHANGED <<scripts, startOf, minF, mdb, cpFinal>>
     /\ IF ~bpr.on
        THEN /\ out'.ban = {a.p} /\ UNCHANGED <<peer, mmem, fetchH, fetchT>> /\ IxUnchanged
+       ELSE IF a.kind # "honest"
+       THEN \* a mutated (definitely incorrect) answer: ban, nothing stored; the requested hashes are
+            \* marked for another try (the request itself is cleared)
+            /\ out'.ban = {a.p} /\ UNCHANGED <<peer, mmem, fetchT>> /\ IxUnchanged
+            /\ fetchH' = MarkTimeout(fetchH, ToSet(bpr.hs))
        ELSE IF a.onChain
        THEN /\ out'.ban = {}
             /\ UNCHANGED peer
@@ -80,9 +86,13 @@ BlocksProofEv(a) ==
             /\ fetchH' = MarkTimeout(fetchH, ToSet(bpr.hs)) /\ UNCHANGED fetchT
 
 TxsProofEv(a) ==
+    /\ UNCHANGED <<over, subst>>
     /\ UNCHANGED <<world, cfg, now, tip, tipTD, lastN>>
     /\ UNCHANGED <<scripts, startOf, minF, mdb, mmem, cpFinal>>
-    /\ TxsProofEffects(a.p, a.onChain, a.tip)
+    /\ IF a.kind = "honest" \/ ~pf[a.p].tpr.on
+       THEN TxsProofEffects(a.p, a.onChain, a.tip)
+       ELSE /\ out'.ban = {a.p} /\ UNCHANGED <<peer, fetchH>> /\ IxUnchanged
+            /\ fetchT' = MarkTimeout(fetchT, ToSet(pf[a.p].tpr.hs))
 
 \* the answer names a block that does not contain the transaction: only the known finding explains it
 WrongBlockNote(a) ==
@@ -93,7 +103,7 @@ WrongBlockNote(a) ==
 
 QuiescentEv(a) ==
     /\ UNCHANGED psCore /\ PipeUnchanged
-    /\ (Quiet => Complete)
+    /\ ((Quiet /\ ~Tainted) => Complete)
 
 Step(r) ==
     CASE r.ev = "Connect"    -> Connect(r.a.p) /\ PipeUnchangedNoFetch /\ TimeoutPeers({r.a.p})
@@ -101,15 +111,14 @@ Step(r) ==
       [] r.ev = "Advance"    -> Advance(r.a.d) /\ PipeUnchanged
       [] r.ev = "Refresh"    -> /\ RefreshTick(Oracle(r), RequestTimeouts)
                                 /\ TimeoutPeers({p \in PeerNames : peer[p].st # "None" /\ TimedOut(peer[p])} \cup RequestTimeouts)
-                                /\ UNCHANGED <<scripts, startOf, minF, mdb, mmem>> /\ IxUnchanged
+                                /\ UNCHANGED <<scripts, startOf, minF, mdb, mmem, over, subst>> /\ IxUnchanged
                                 /\ IsPrefixSeq(cpFinal, cpFinal')       \* C07: final check points are append-only
       [] r.ev = "LastState"  -> RecvLastState(r.a.p, [b |-> r.a.b, ok |-> r.a.ok], Oracle(r)) /\ PipeUnchanged
       [] r.ev = "Proof"      -> /\ RecvProof(r.a.p, MsgOf(r.a), Oracle(r))
-                                /\ UNCHANGED <<startOf, cpFinal>>
+                                /\ UNCHANGED <<startOf, cpFinal, subst>>
                                 /\ CommitEffects(r.st.peer[r.a.p].pReorg, r.st.peer[r.a.p].pLastN,
                                                  r.st.tip # tip \/ r.st.tipTD # tipTD)
-                                /\ ((\E e \in scripts' : e[2] = minF' + 1 /\ e \notin scripts) =>
-                                        PrintT(<<"KNOWN-FINDING", "KF-C09-rollback-number", minF' + 1>>))
+                                /\ (over' # over => PrintT(<<"KNOWN-FINDING", "KF-C09-rollback-number", over'>>))
       [] r.ev = "Restart"    -> Restart /\ PersistentUnchanged /\ mmem' = {} /\ fetchH' = {} /\ fetchT' = {}
       [] r.ev = "SetScripts" -> SetScripts(r.a.cmd, r.a.list)
       [] r.ev = "FilterTick" -> IF r.a.token = 0 THEN FilterTick0 ELSE UNCHANGED psCore /\ PipeUnchanged
@@ -119,11 +128,34 @@ Step(r) ==
       [] r.ev = "GetTx"      -> RpcGetTx(r.a.t, r.a.status, r.a.blk) /\ WrongBlockNote(r.a)
       [] r.ev = "FetchHeader" -> RpcFetchHeader(r.a.b, r.a.status)
       [] r.ev = "TxsProof"   -> TxsProofEv(r.a)
-      [] r.ev \in {"CheckPoints", "FilterHashes"} -> UNCHANGED psCore /\ PipeUnchanged
-      [] r.ev = "Filters"    -> RecvFilters(r.a.p, [start |-> r.a.start, fs |-> r.a.fs, hs |-> r.a.hs])
+      [] r.ev = "CheckPoints" -> UNCHANGED psCore /\ PipeUnchanged
+      [] r.ev = "FilterHashes" -> \* when the cached hashes are complete the handler calls try_send_get_block_filters,
+                                 \* which may recover the earliest matched record like the filters tick
+                                 (UNCHANGED psCore /\ PipeUnchanged) \/ (mmem' # mmem /\ FilterTick0)
+      [] r.ev = "Filters"    -> /\ RecvFilters(r.a.p, [start |-> r.a.start, fs |-> r.a.fs, hs |-> r.a.hs])
+                                /\ (subst' # subst => PrintT(<<"KNOWN-FINDING", "KF-C06-blockhash", subst' \ subst>>))
       [] r.ev = "BlocksProof" -> BlocksProofEv(r.a)
       [] r.ev = "Block"      -> RecvBlock(r.a.p, r.a.b, r.a.body)
       [] r.ev = "Quiescent"  -> QuiescentEv(r.a)
+      [] r.ev = "Crash"      -> \* process death at a storage write + restart: volatile state is gone; the persistent
+                                \* state is whatever the interrupted operation had written (loaded from the log and
+                                \* judged by the invariants from here on).  A script whose stored entry changed in the
+                                \* interrupted operation starts at its stored number.
+                                /\ UNCHANGED <<now>>
+                                /\ peer' = [p \in PeerNames |-> NonePeer]
+                                /\ mmem' = {} /\ fetchH' = {} /\ fetchT' = {} /\ UNCHANGED subst
+                                \* a number lowered by the interrupted operation may come from rollback_to_block
+                                /\ over' = {k \in over : \E e \in scripts : e[1] = k /\ e \in scripts'}
+                                           \cup {e[1] : e \in {x \in scripts' : \E y \in scripts : y[1] = x[1] /\ y[2] > x[2]}}
+                                           \* history entries disappeared: the rollback batch of the interrupted
+                                           \* commit was written; scripts at or above the removed blocks over-claim
+                                           \cup (IF hist \ hist' = {} THEN {}
+                                                 ELSE LET x0 == SetMin({h[2] : h \in hist \ hist'})
+                                                      IN {e[1] : e \in {x \in scripts' : x[2] >= x0}})
+                                /\ startOf' = [sk \in {e[1] : e \in scripts'} |->
+                                                 IF sk \in DOMAIN startOf /\ \E e \in scripts : e[1] = sk /\ e \in scripts'
+                                                 THEN startOf[sk]
+                                                 ELSE (CHOOSE e \in scripts' : e[1] = sk)[2]]
       [] r.ev = "Panic"      -> \* the only deliberate abort: a valid second proof (from genesis) confirms a long fork
                                 /\ r.a.during = "Proof" /\ r.a.msg = "long fork detected"
                                 /\ peer[r.a.args.p].req.on /\ peer[r.a.args.p].req.fork
@@ -142,28 +174,29 @@ TraceInit ==
        /\ hdrs = ToSet(r.st.hdrs) /\ nums = ToSet(r.st.nums)
        /\ cpFinal = r.st.cpFinal /\ cached = r.st.cached /\ pf = r.st.pf
        /\ fetchH = ToSet(r.st.fetchH) /\ fetchT = ToSet(r.st.fetchT)
-       /\ startOf = <<>>
+       /\ startOf = <<>> /\ over = {} /\ subst = {}
 
 TraceNext ==
     /\ l < Len(Rec)
     /\ l' = l + 1
     /\ LET r == Rec[l + 1] IN
        IF r.ev = "Reset"
-       THEN /\ world' = r.world /\ cfg' = CfgOf(r) /\ LoadPs(r) /\ LoadFs(r) /\ startOf' = <<>>
-       ELSE /\ UNCHANGED <<world, cfg>> /\ LoadPs(r) /\ LoadFs(r) /\ Step(r)
+       THEN /\ world' = r.world /\ cfg' = CfgOf(r) /\ LoadPs(r) /\ LoadFs(r) /\ startOf' = <<>> /\ over' = {} /\ subst' = {}
+       ELSE /\ r.ev # "DeadStore"     \* C08: a store that aborts on every start is never a step
+            /\ UNCHANGED <<world, cfg>> /\ LoadPs(r) /\ LoadFs(r) /\ Step(r)
 
 TraceSpec == TraceInit /\ [][TraceNext]_<<l, allVars>>
 
 StepProps ==
-    /\ (Rec[l'].ev # "Reset") =>
+    /\ (Rec[l'].ev \notin {"Reset", "Crash"}) =>
           /\ TipOnlyHeavier /\ PeerDiagram /\ ProofOnlyWhenRequested /\ LastStateKeepsProof
 
 TraceProps == [][StepProps]_<<l, allVars>>
-IndexChanged == cells' # cells \/ hist' # hist \/ scripts' # scripts \/ tip' # tip \/ startOf' # startOf \/ world' # world
-P_CellsSound == [][IndexChanged => CellsSound']_<<l, allVars>>
-P_HistOnCanon == [][IndexChanged => HistOnCanon']_<<l, allVars>>
-P_ScriptsNumberHonest == [][IndexChanged => ScriptsNumberHonest']_<<l, allVars>>
-P_PeerSync == [][(Rec[l'].ev # "Reset") => (TipOnlyHeavier /\ PeerDiagram /\ ProofOnlyWhenRequested /\ LastStateKeepsProof)]_<<l, allVars>>
+IndexChanged == Rec[l'].ev = "Crash" \/ cells' # cells \/ hist' # hist \/ scripts' # scripts \/ tip' # tip \/ startOf' # startOf \/ world' # world
+P_CellsSound == [][(IndexChanged /\ ~Tainted') => CellsSound']_<<l, allVars>>
+P_HistOnCanon == [][(IndexChanged /\ ~Tainted') => HistOnCanon']_<<l, allVars>>
+P_ScriptsNumberHonest == [][(IndexChanged /\ ~Tainted') => ScriptsNumberHonest']_<<l, allVars>>
+P_PeerSync == [][(Rec[l'].ev \notin {"Reset", "Crash"}) => (TipOnlyHeavier /\ PeerDiagram /\ ProofOnlyWhenRequested /\ LastStateKeepsProof)]_<<l, allVars>>
 
 TraceInv ==
     /\ TypeOK /\ LastNAncestors /\ ProvedAreValid
